@@ -119,3 +119,5 @@ func verifTV(c system.Collection) int {
 }
 
 var verifArithOps = []func(system.Any, system.Any) (system.Any, error){EvaluateAdd, EvaluateSub, EvaluateMul, EvaluateDiv, EvaluateFloorDiv, EvaluateMod}
+
+var verifOps3 = []Operator{And, Or, Xor, Implies}
